@@ -229,7 +229,7 @@ struct Harness
         bool term_before = is_term(s);
         probe = false;
         outcome = "ok";
-        unsigned char buf[64];
+        unsigned char buf[512];
         memset(buf, 0x3C, sizeof buf);
         switch (o.code)
         {
